@@ -5,9 +5,9 @@ From Verif Require Import Base Cal Tables Period Builder.
 Import ListNotations.
 Open Scope Z_scope.
 
-(** the tax-benefit system names its entities apart *)
+(** the tax-benefit system names its entities apart (and none is called "axes") *)
 Definition wf_sys (s : sys) : Prop :=
-  NoDup (plurals s) /\ NoDup (singulars s) /\
+  NoDup (plurals s) /\ NoDup (singulars s) /\ ~ In "axes"%string (plurals s) /\
   (forall v, In v (s_vars s) -> In (v_entity v) (singulars s)).
 
 (** the instances declared for entity [e] in an entity-shaped document (plural keys) *)
@@ -49,7 +49,19 @@ Definition last_for (x : ext) (dated : list (string * json)) (t : string) (p : p
   exists pre post value, dated = pre ++ (t, value) :: post /\
     forall t' v', In (t', v') post -> v' <> JNull -> canon_key (tok x t') <> Ok p.
 
-(** an ill-formed item of the classes named by the property, somewhere in an entity-shaped
+(** the input is not one that the builder drops because the variable has ended *)
+Definition not_after_end (v : variable) (p : period) : Prop :=
+  match v_end v with
+  | None => True
+  | Some e => p_unit p = Eternity \/ date_ltb e (p_start p) = false
+  end.
+
+(** "[pid] is the [i]-th holder of the [b]-th role in the [a]-th declared group" *)
+Definition member_at (e : entity) (l : list (string * json)) (a b i : nat) (pid : string) : Prop :=
+  exists gid fields r, nth_error l a = Some (gid, JObj fields) /\ nth_error (e_roles e) b = Some r
+                       /\ nth_error (role_members r fields) i = Some pid.
+
+(** an ill-formed item of the classes named by the property, anywhere in an entity-shaped
     document *)
 Inductive ill_formed (x : ext) (s : sys) (doc : list (string * json)) : Prop :=
   | IF_unknown_entity k :
@@ -61,26 +73,29 @@ Inductive ill_formed (x : ext) (s : sys) (doc : list (string * json)) : Prop :=
       ill_formed x s doc
   | IF_bad_value e l id vn t value v :
       In e (entities s) -> instances_of doc e = Some l -> declares l id vn t value ->
+      ~ In vn (map role_name (e_roles e)) ->
       find_var vn (s_vars s) = Some v -> value <> JNull ->
       check_set_value x v value = Err EValue ->     (* text for a number, unknown enum name, impossible date *)
       ill_formed x s doc
   | IF_unparsable_period e l id vn t value k :
       In e (entities s) -> instances_of doc e = Some l -> declares l id vn t value ->
+      ~ In vn (map role_name (e_roles e)) ->
       parse_key (tok x t) = Err k -> ill_formed x s doc
   | IF_mismatched_period e l id vn t value v p :
       In e (entities s) -> instances_of doc e = Some l -> declares l id vn t value ->
+      ~ In vn (map role_name (e_roles e)) ->
       find_var vn (s_vars s) = Some v -> value <> JNull -> canon_key (tok x t) = Ok p ->
-      eternal v = false ->
+      eternal v = false -> not_after_end v p ->
       (p_unit p = Eternity \/ (v_rule v = RNone /\ (p_unit p <> v_def v \/ 1 < p_size p))) ->
       ill_formed x s doc
   | IF_unknown_person e l gid r i pid persons :
       In e (s_groups s) -> instances_of doc e = Some l -> declared_member e l gid r i pid ->
       instances_of doc (s_person s) = Some persons -> ~ In pid (map fst persons) ->
       ill_formed x s doc
-  | IF_duplicate_membership e l gid r i gid' r' i' pid :
+  | IF_duplicate_membership e l a b i a' b' i' pid :
       In e (s_groups s) -> instances_of doc e = Some l ->
-      declared_member e l gid r i pid -> declared_member e l gid' r' i' pid ->
-      (gid, r_key r, i) <> (gid', r_key r', i') -> ill_formed x s doc
+      member_at e l a b i pid -> member_at e l a' b' i' pid ->
+      (a, b, i) <> (a', b', i') -> ill_formed x s doc
   | IF_too_many e l gid fields r mx :
       In e (s_groups s) -> instances_of doc e = Some l -> In (gid, JObj fields) l ->
       In r (e_roles e) -> r_max r = Some mx ->
